@@ -101,7 +101,9 @@ def gen_readers(rng, n):
 def build(log):
     if os.environ.get("VERIF_TIER") == "thorough" or "thorough" in sys.argv:
         d = os.path.join(vlib.ROOT, "harness", "driver")
-        rc, out, dt = vlib.sh(["go", "build", "-race", "-tags", "verif", "-o", os.path.join(vlib.BUILD, "driver_race"), "."],
+        # decimal_pure_go: the word kernels are Go code, so the race detector also sees their memory accesses
+        # (it cannot instrument the amd64 assembly kernels)
+        rc, out, dt = vlib.sh(["go", "build", "-race", "-tags", "verif decimal_pure_go", "-o", os.path.join(vlib.BUILD, "driver_race"), "."],
                               cwd=d, env=vlib.GOENV, timeout=900)
         log.append(("go-build[-race]", rc, dt, out[-1500:] if rc else ""))
         JUDGE_STATS["race_build"] = "ok" if rc == 0 else "unavailable: " + out[-200:]
